@@ -364,6 +364,8 @@ class QCow2Snapshot:
     def open(self) -> QCow2:
         disk = copy.copy(self.qcow2)
         disk.l1_table = self.l1_table
+        # Don't share the stream buffer of the active image
+        disk._buf = None
         disk.seek(0)
         return disk
 
